@@ -66,7 +66,8 @@ func newStdSvc(v stdVariant) (*stdSvc, error) {
 			{Dests: []string{"static-tcp.test"}, Protocol: "tcp", NextHop: "hop-a.test:5070"},
 			{Dests: []string{"static-tls.test"}, Protocol: "tls", NextHop: ip(20) + ":5070"},
 			{Dests: []string{"static-noport.test"}, Protocol: "udp", NextHop: "hop-b.test"},
-			{Dests: []string{"*.wudp.test"}, Protocol: "udp", NextHop: ip(24) + ":5070"},
+			// (a wildcard that is not the first dest of its route item)
+			{Dests: []string{"plain-w.test", "*.wudp.test"}, Protocol: "udp", NextHop: ip(24) + ":5070"},
 			{Dests: []string{"*.wtcp.test"}, Protocol: "tcp", NextHop: ip(24) + ":5070"},
 			{Dests: []string{"*.wtls.test"}, Protocol: "TLS", NextHop: ip(24) + ":5070"},
 			// a literal listed after a wildcard that covers it: the literal must still win
